@@ -385,12 +385,20 @@ class MultiSetNode(SequenceNode[HashableCounter[T]], Generic[T]):
     def container_type(self) -> Type[HashableCounter[T]]:
         return HashableCounter
 
+    def __eq__(self, other):
+        # an empty mapping and an empty multiset hold equal (empty) collections, but they are not the same document
+        return super().__eq__(other) and isinstance(self, MappingNode) == isinstance(other, MappingNode)
+
+    def __hash__(self):
+        return super().__hash__()
+
     def edits(self, node: TreeNode) -> Edit:
         if isinstance(node, MultiSetNode):
-            if len(self._children) == len(node._children) == 0:
+            if self == node:
                 return Match(self, node, 0)
-            elif self._children == node._children:
-                return Match(self, node, 0)
+            elif len(self._children) == len(node._children) == 0:
+                # an empty mapping vs. an empty multiset
+                return Replace(self, node)
             else:
                 return MultiSetEdit(self, node, self._children, node._children, auto_match_keys=self.auto_match_keys)
         else:
@@ -411,6 +419,12 @@ class MultiSetNode(SequenceNode[HashableCounter[T]], Generic[T]):
 
 class MappingNode(ContainerNode, ABC):
     """An abstract base class for nodes that represent mappings."""
+
+    def __eq__(self, other):
+        return isinstance(other, MappingNode) and super().__eq__(other)
+
+    def __hash__(self):
+        return super().__hash__()
 
     @classmethod
     def make_key_value_pair_node(cls, key: LeafNode, value: TreeNode, allow_key_edits: bool = True) -> KeyValuePairNode:
